@@ -270,7 +270,7 @@ impl <T: ArrayElement> ArrayJoining<T> for Array<T> {
                 .has_error()?.into_iter()
                 .map(Result::unwrap)
                 .collect::<Vec<Self<>>>();
-            arrs.validate_stack_shapes(2, 0)?;
+            arrs.validate_stack_shapes(2, 2)?;
 
             let mut new_shape = arrs[0].get_shape()?;
             new_shape[2] = arrs.iter().fold(0, |a, b| a + b.shape[2]);
